@@ -186,6 +186,32 @@ func c11Seeds(c *ev.Ctx) []fseed {
 		xb := libWriteXZ(xz.WriterConfig{DictCap: 65536, BlockSize: int64(r.Pick(0, 9000))}, data)
 		out = append(out, fseed{ID: fmt.Sprintf("farxz%d", i), Format: "xz", B: xb, Dict: 4096, Bounds: xzBounds(xb), XS: xzParsed(fmt.Sprintf("farxz%d", i), xb)})
 	}
+	// an end marker inside an LZMA2 chunk, exactly at the chunk's announced size (the body of a
+	// .lzma stream with size and marker, put into a chunk), followed by a chunk that continues
+	// the state and begins with literals: the repeat distance left behind by the marker is
+	// 2^32-1
+	for i := 0; i < 3; i++ {
+		d := gen.Data(r, []string{"text", "lowent", "random"}[i], r.Range(20, 900))
+		var lb bytes.Buffer
+		lw, err := lzma.WriterConfig{Properties: &lzma.Properties{LC: 3, LP: 0, PB: 2}, DictCap: 4096, SizeInHeader: true, Size: int64(len(d)), EOSMarker: true}.NewWriter(&lb)
+		if err != nil {
+			continue
+		}
+		lw.Write(d)
+		if lw.Close() != nil || lb.Len() < 20 {
+			continue
+		}
+		body := lb.Bytes()[13:]
+		u, cs := len(d)-1, len(body)-1
+		st := []byte{0xE0 | byte(u>>16), byte(u >> 8), byte(u), byte(cs >> 8), byte(cs), 0x5d}
+		st = append(st, body...)
+		st = append(st, 0x80, 0, byte(i), 0, 5, 0, 0, 0, 0, 0, 0)
+		st = append(st, 0)
+		fs := fseed{ID: fmt.Sprintf("marker-in-chunk%d", i), Format: "lzma2", B: st, Dict: 4096, Bounds: []int{0, 5, 6, len(st) - 13, len(st) - 12, len(st) - 8}}
+		out = append(out, fs)
+		xb := ref.BuildXZ(ref.CheckCRC32, []ref.BlockSpec{{LZMA2: st, Content: append(append([]byte{}, d...), make([]byte, i+1)...), DictCode: 0}})
+		out = append(out, fseed{ID: fmt.Sprintf("marker-in-chunk-xz%d", i), Format: "xz", B: xb, Dict: 4096, Bounds: xzBounds(xb)})
+	}
 	return out
 }
 
@@ -453,6 +479,10 @@ func checkC11(c *ev.Ctx) {
 					if s.Format == "lzma" && len(in) >= 5 {
 						in[3], in[4] = 0, 0
 					}
+				} else if i < len(seeds) {
+					// every seed once as it is
+					s = seeds[i]
+					in = s.B
 				} else {
 					s = seeds[r.Intn(len(seeds))]
 					in = mutate(r, s, seeds)
